@@ -103,9 +103,15 @@ def probe_text(draw, force=None):
     if force:
         decl = [d for d in decl if d.split()[-3 if "array" not in d else 2] != force and (" %s " % force) not in d]
     lines.extend(decl)
+    fp_at = len(lines)
     for nm in names:
         form = draw(st.sampled_from(["G(%s) | 0", "G(k=%s) | 1", "G(%s[0]) | 0", "G | %s", "G(2*%s+1) | 0", "G({%s}) | 0", "for int j9 in [1, %s]\n    H | 0"]))
         lines.append(form % nm)
+    if draw(st.integers(0, 3)) == 0:
+        # floating-point corner cases whose outcome depends on NumPy's process-wide error state (np.seterr);
+        # placed before the statements that mention (possibly undefined) names
+        lines.insert(fp_at, draw(st.sampled_from(["G(log(0)) | 0", "G(0.0**-1) | 0", "G(arctanh(1)) | 0", "G(1/0.0) | 1", "G(exp(1000)) | 0",
+                                           "float big = 1e308*10", "G(sqrt(-1)) | 0", "G(0.0/0.0) | 0"])))
     if draw(st.integers(0, 2)) == 0:
         # an operation named like a program some other script includes
         lines.append(draw(st.sampled_from(["sub | [10, 11]", "sub(a=0.3) | [1, 2]", "main | 0"])))
